@@ -26,9 +26,12 @@ def normalise (opt : String) (v : CVal) : CVal :=
 
 def digitChar (d : Nat) : Char := Char.ofNat (48 + d)
 
-def natDigits : Nat → List Char
-  | n => if h : n < 10 then [digitChar n] else natDigits (n / 10) ++ [digitChar (n % 10)]
-decreasing_by omega
+/-- decimal digits, most significant first (structural on a fuel that always suffices) -/
+def natDigitsAux : Nat → Nat → List Char
+  | 0, n => [digitChar (n % 10)]
+  | fuel + 1, n => if n < 10 then [digitChar n] else natDigitsAux fuel (n / 10) ++ [digitChar (n % 10)]
+
+def natDigits (n : Nat) : List Char := natDigitsAux n n
 
 def charDigit? (c : Char) : Option Nat :=
   if 48 ≤ c.toNat ∧ c.toNat ≤ 57 then some (c.toNat - 48) else none
